@@ -136,6 +136,44 @@ fn content_roundtrip(cmd: &Value) -> OpResult {
     })
 }
 
+/// Redacted content types that keep fields: JSON -> typed -> JSON -> typed -> JSON.
+fn redacted_content_roundtrip(cmd: &Value) -> OpResult {
+    use ruma_events::room::{
+        aliases::RedactedRoomAliasesEventContent, create::RedactedRoomCreateEventContent,
+        history_visibility::RedactedRoomHistoryVisibilityEventContent, join_rules::RedactedRoomJoinRulesEventContent,
+        member::RedactedRoomMemberEventContent, power_levels::RedactedRoomPowerLevelsEventContent,
+        redaction::RedactedRoomRedactionEventContent,
+    };
+    macro_rules! rt {
+        ($t:ty, $text:expr) => {{
+            match serde_json::from_str::<$t>($text) {
+                Err(e) => json!({"de_err": e.to_string()}),
+                Ok(c1) => {
+                    let s1 = serde_json::to_string(&c1).map_err(|e| e.to_string())?;
+                    match serde_json::from_str::<$t>(&s1) {
+                        Err(e) => json!({"s1": s1, "de2_err": e.to_string()}),
+                        Ok(c2) => {
+                            let s2 = serde_json::to_string(&c2).map_err(|e| e.to_string())?;
+                            json!({"s1": s1, "s2": s2, "debug_equal": format!("{c1:?}") == format!("{c2:?}")})
+                        }
+                    }
+                }
+            }
+        }};
+    }
+    let text = s(cmd, "content")?;
+    Ok(match s(cmd, "ev_type")? {
+        "m.room.power_levels" => rt!(RedactedRoomPowerLevelsEventContent, text),
+        "m.room.member" => rt!(RedactedRoomMemberEventContent, text),
+        "m.room.create" => rt!(RedactedRoomCreateEventContent, text),
+        "m.room.join_rules" => rt!(RedactedRoomJoinRulesEventContent, text),
+        "m.room.history_visibility" => rt!(RedactedRoomHistoryVisibilityEventContent, text),
+        "m.room.aliases" => rt!(RedactedRoomAliasesEventContent, text),
+        "m.room.redaction" => rt!(RedactedRoomRedactionEventContent, text),
+        _ => json!({"unsupported": true}),
+    })
+}
+
 fn raw_ops(cmd: &Value) -> OpResult {
     let text = s(cmd, "text")?;
     let raw = match Raw::<Value>::from_json_string(text.to_owned()) {
@@ -175,6 +213,7 @@ pub fn dispatch(op: &str, cmd: &Value) -> Option<OpResult> {
     Some(match op {
         "event_de" => event_de(cmd),
         "content_roundtrip" => content_roundtrip(cmd),
+        "redacted_content_roundtrip" => redacted_content_roundtrip(cmd),
         "raw_ops" => raw_ops(cmd),
         _ => return None,
     })
